@@ -4,8 +4,8 @@
   Property theorems only.  The binary decoders are the TOTAL functions of Zed/Model/Zng*.lean
   (`List UInt8 → …`, every bound check of the Go code, panic sites as values); the theorems say
   that every loop consumes input (so termination is a theorem, not fuel), that the allocation
-  requests are bounded by the configured read limit, which panics the current code has (negations,
-  on concrete witnesses that the harness replays on the real code), and what `Validate` guarantees.
+  requests are bounded by the configured read limit, that the reader reaches no panic site, and what
+  `Validate` guarantees (with negations on concrete witnesses that the harness replays on the real code).
   The text readers and the query compiler have no model: fuzzing only (evidence: search).
 -/
 import Zed.Proofs.ZngAlloc
@@ -58,29 +58,40 @@ theorem alloc_bounded (o : ROpts) (decomp : Bytes → Nat → Option Bytes) (ctx
     ∀ a ∈ (readStream o decomp ctx bs).allocs, a ≤ o.maxSize :=
   readStream_allocs o decomp bs.length ctx bs (Nat.le_refl _)
 
-/-! ## panics of the current code (negations of "no panic escapes", with witnesses) -/
+/-! ## no panic in the ZNG reader -/
 
+/-- **reader_never_panics.**  For every input, every option setting, every LZ4 behaviour and every
+    starting context the modelled ZNG reader ends with values/EOF or an error — it reaches no panic
+    site.  (Until repo commit 0b09f99cc this was FALSE of the code: three `int`s taken from 64-bit
+    varints — a value's type id, a compressed frame's declared size, a typedef's string length —
+    were used as index / length without a sign check; the negations `not_reader_panic_free_*` were
+    proved here on the 13-byte witnesses below and replayed on the real code, where they killed the
+    process from the scanner's goroutines.  The repair added the three sign checks, the model
+    follows the repaired code, and the full statement is now a theorem.) -/
+theorem reader_never_panics (o : ROpts) (decomp : Bytes → Nat → Option Bytes) (ctx : Ctx) (bs : Bytes)
+    (s : String) : (readStream o decomp ctx bs).out ≠ .panic s :=
+  readStream_no_panic o decomp bs.length ctx bs s (Nat.le_refl _)
+
+/-- the former panic witnesses (the harness replays them on the real code on every run) -/
 def witnessNegId : Bytes := [0x1b, 0x00, 0x80, 0x80, 0x80, 0x80, 0x80, 0x80, 0x80, 0x80, 0x80, 0x01, 0x01]
 def witnessNegSize : Bytes := [0x5b, 0x00, 0x00, 0x80, 0x80, 0x80, 0x80, 0x80, 0x80, 0x80, 0x80, 0x80, 0x01]
 def witnessNegStr : Bytes := [0x0b, 0x00, 0x07, 0x80, 0x80, 0x80, 0x80, 0x80, 0x80, 0x80, 0x80, 0x80, 0x01]
 
-/-- The full statement "for all bytes the reader ends with values or an error" is FALSE of the
-    current code: a value whose type id is 2^63 reaches `MapperLookupCache.Lookup` with a
-    negative index. -/
-theorem not_reader_panic_free_type_id (decomp : Bytes → Nat → Option Bytes) :
-    (readAll ⟨1073741824, false⟩ decomp witnessNegId).out = .panic "mapper-lookup-negative-id" := by
+/-- a value whose type id is 2^63 is now an ordinary error -/
+theorem former_witness_type_id (decomp : Bytes → Nat → Option Bytes) :
+    (readAll ⟨1073741824, false⟩ decomp witnessNegId).out = .err := by
   have hd : decodeVal ⟨1073741824, false⟩ [] [0x80, 0x80, 0x80, 0x80, 0x80, 0x80, 0x80, 0x80, 0x80, 0x01, 0x01]
-      = .panic "mapper-lookup-negative-id" := by decide
+      = .err := by decide
   have hv : decodeVals ⟨1073741824, false⟩ [] [0x80, 0x80, 0x80, 0x80, 0x80, 0x80, 0x80, 0x80, 0x80, 0x01, 0x01]
-      = .error (.panic "mapper-lookup-negative-id") := by
+      = .error .err := by
     rw [decodeVals]
     simp only [List.isEmpty_cons, Bool.false_eq_true, if_false]
     split
+    · rfl
     · rename_i h; rw [hd] at h; cases h
-    · rename_i h; rw [hd] at h; cases h; rfl
     · rename_i h; rw [hd] at h; cases h
   have hs : step ⟨1073741824, false⟩ decomp [] 0x1b [0x00, 0x80, 0x80, 0x80, 0x80, 0x80, 0x80, 0x80, 0x80, 0x80, 0x01, 0x01]
-      = .done (.panic "mapper-lookup-negative-id") [11, 11] := by
+      = .done .err [11, 11] := by
     simp only [step, readFrame, readPlainFrame]
     simp (config := { decide := true }) [eos, versionMask, frameTypeOf, typesFrame, valuesFrame, compressedMask, frameLen, readUvarint, readUvarintAux, decodeLengthExpr, asInt, two63, two64, peekRead, hasLen]
     rw [hv]
@@ -89,60 +100,6 @@ theorem not_reader_panic_free_type_id (decomp : Bytes → Nat → Option Bytes) 
   split
   · rename_i e al h; rw [hs] at h; cases h; rfl
   · rename_i h; rw [hs] at h; cases h
-
-/-- … a compressed frame declaring an uncompressed size of 2^63 reaches `newBuffer` with a
-    negative length (the `size > maxSize` test is on a signed int) … -/
-theorem not_reader_panic_free_comp_size (decomp : Bytes → Nat → Option Bytes) :
-    (readAll ⟨1073741824, false⟩ decomp witnessNegSize).out = .panic "newbuffer-negative-length" := by
-  have hx : sizeOfUvarint 9223372036854775808 = 10 := by
-    simp [sizeOfUvarint]
-  have hs : step ⟨1073741824, false⟩ decomp [] 0x5b [0x00, 0x00, 0x80, 0x80, 0x80, 0x80, 0x80, 0x80, 0x80, 0x80, 0x80, 0x01]
-      = .done (.panic "newbuffer-negative-length") [0] := by
-    simp only [step, readFrame, readCompFrame, readCompHeader]
-    simp (config := { decide := true }) [eos, versionMask, frameTypeOf, typesFrame, valuesFrame, compressedMask, frameLen, readUvarint, readUvarintAux, decodeLengthExpr, asInt, two63, two64, peekRead, hasLen, readCompExtra, hx, wrapInt, asU64]
-  unfold readAll witnessNegSize
-  rw [readStream]
-  split
-  · rename_i e al h; rw [hs] at h; cases h; rfl
-  · rename_i h; rw [hs] at h; cases h
-
-/-- … and a typedef whose name length is 2^63 makes `buffer.read` slice backwards. -/
-theorem not_reader_panic_free_string_length (decomp : Bytes → Nat → Option Bytes) :
-    (readAll ⟨1073741824, false⟩ decomp witnessNegStr).out = .panic "buffer-read-negative-length" := by
-  have hd : decTypedef [] 7 [0x80, 0x80, 0x80, 0x80, 0x80, 0x80, 0x80, 0x80, 0x80, 0x01]
-      = .error (.panic "buffer-read-negative-length") := by
-    simp (config := { decide := true }) [decTypedef, rdTypedef, typeDefRecord, typeDefArray, typeDefSet, typeDefMap, typeDefUnion, typeDefEnum, typeDefName,
-      rdCounted, rdInt, readUvarintAsInt, readUvarint, readUvarintAux, asInt, two63, two64]
-  have hv : decTypedefs [] [0x07, 0x80, 0x80, 0x80, 0x80, 0x80, 0x80, 0x80, 0x80, 0x80, 0x01]
-      = .error (.panic "buffer-read-negative-length") := by
-    rw [decTypedefs]
-    split
-    · rename_i e h
-      have : (7 : UInt8).toNat = 7 := by decide
-      rw [this, hd] at h; cases h; rfl
-    · rename_i h
-      have : (7 : UInt8).toNat = 7 := by decide
-      rw [this, hd] at h; cases h
-  have hs : step ⟨1073741824, false⟩ decomp [] 0x0b [0x00, 0x07, 0x80, 0x80, 0x80, 0x80, 0x80, 0x80, 0x80, 0x80, 0x80, 0x01]
-      = .done (.panic "buffer-read-negative-length") [11] := by
-    simp only [step, readFrame, readPlainFrame]
-    simp (config := { decide := true }) [eos, versionMask, frameTypeOf, typesFrame, valuesFrame, compressedMask, frameLen, readUvarint, readUvarintAux, decodeLengthExpr, asInt, two63, two64, peekRead, hasLen]
-    rw [hv]
-  unfold readAll witnessNegStr
-  rw [readStream]
-  split
-  · rename_i e al h; rw [hs] at h; cases h; rfl
-  · rename_i h; rw [hs] at h; cases h
-
-/-- **reader_panics_only_at_known_sites** (the partial form of "no panic escapes").  FULL statement
-    — false, see the three negations above —: the outcome is never a panic.  Proved: for every
-    input, every option setting, every LZ4 behaviour and every starting context, if the modelled
-    reader panics then it is at one of exactly these three places, all of them an `int` taken from a
-    64-bit varint and used as a length or index without a sign check. -/
-theorem reader_panics_only_at_known_sites (o : ROpts) (decomp : Bytes → Nat → Option Bytes) (ctx : Ctx)
-    (bs : Bytes) (s : String) (h : (readStream o decomp ctx bs).out = .panic s) :
-    s ∈ ["mapper-lookup-negative-id", "newbuffer-negative-length", "buffer-read-negative-length"] :=
-  readStream_panic o decomp bs.length ctx bs s (Nat.le_refl _) h
 
 /-! ## Validate -/
 
